@@ -10,6 +10,7 @@ from stone.backends.obj_c import (
     undocumented, )
 from stone.backends.obj_c_helpers import (
     append_to_jazzy_category_dict,
+    escape_string,
     fmt_alloc_call,
     fmt_camel,
     fmt_camel_upper,
@@ -1258,7 +1259,7 @@ class ObjCTypesBackend(ObjCBaseBackend):
         elif is_timestamp_type(data_type):
             serializer_args.append(('value', input_value))
             serializer_args.append(('dateFormat',
-                                    '@"{}"'.format(data_type.format)))
+                                    '@"{}"'.format(escape_string(data_type.format))))
         else:
             serializer_args.append(('value', input_value))
 
